@@ -114,7 +114,7 @@ void cc_queue_destroy(CC_Queue *queue)
 void cc_queue_destroy_cb(CC_Queue *queue, void (*cb) (void*))
 {
     cc_deque_destroy_cb(queue->d, cb);
-    free(queue);
+    queue->mem_free(queue);
 }
 
 /**
